@@ -6,7 +6,7 @@ EXTENDS IOVectorOps
 CONSTANTS MaxEl, MaxLen,        \* vectors: 0..MaxEl elements of 0..MaxLen bytes (zero-length elements anywhere)
           OtherEl, OtherLen,    \* shapes of the other vector of memcpy/pipe (first operation of a sequence)
           Depth,                \* operations per sequence
-          KF                    \* known findings tolerated (exact signature, see Known): {} or {"F7"} ...
+          KF                    \* findings tolerated with their exact signature (see Known); {} in the committed configurations
 VARIABLES S, depth, last
 vars == <<S, depth, last>>
 
